@@ -715,7 +715,7 @@ impl<Octs: Octets> PeerDownNotification<Octs> {
         {
             // If we are at the end of the message, there is no data and thus
             // no BGP NOTIFICATION.
-            if COFF+1 == self.common_header().length() as usize {
+            if COFF+1 == self.as_ref().len() {
                 return None
             }
             Some({
